@@ -261,6 +261,11 @@ class ModelProcessor(Processor):
         else:
             raise ValueError("No compiler defined.")
         # Save compiler pulses
+        if coeffs is None:
+            # The circuit needs no control pulse (it is empty or consists of
+            # GLOBALPHASE gates and rotations by the angle 0 only).
+            self.clear_pulses()
+            return tlist, coeffs
         self.set_coeffs(coeffs)
         self.set_tlist(tlist)
         return tlist, coeffs
